@@ -38,7 +38,9 @@ typedef struct {
   size_t ntok, pos;
   _Bool fail, eof_after_last;
 } ios_t;
+#ifndef IOS_MAXTOK
 #define IOS_MAXTOK 64
+#endif
 
 _Bool nondet_bool(void);
 static inline void ios_t__ctor_0(ios_t *s)
